@@ -942,7 +942,8 @@ def rd_inv(s):
     # i -> N-1-i (what the unchanged tree does: its rotation matrix has the second row negated)
     xs, ys, goal_id = geo(i)
     chk = z3.Solver()
-    chk.set("timeout", 2000)
+    chk.set("rlimit", 8000000)   # deterministic resource limit: the branch taken here must not depend on the load of the machine
+    chk.set("timeout", 600000)
     chk.add(*[z3.substitute(lift(h), *gen_d) for h in base + [g_shape, D >= 1]], z3.Not(z3.substitute(goal_id, *gen_d)))
     identity = chk.check() == z3.unsat
     if identity:
